@@ -99,7 +99,8 @@ class C16(Prop):
         "save_structure_bytes_as_in_source", "save_atomic_partial", "elem_dispatch_spec", "key_dispatch_spec",
         "value_dispatch_spec", "svalue_dispatch_spec", "restore_dispatch_as_in_source",
         "nesting_and_dry_run_sites_as_modelled", "roundtrip_float_keys", "keys_distinct_with_float_keys",
-        "restore_ignores_stale_state", "save_ignores_stale_state", "reset_sites_as_modelled")]
+        "restore_ignores_stale_state", "save_ignores_stale_state", "reset_sites_as_modelled",
+        "restore_into_another_program_version")]
     witness_theorems = ["NV.C16.Witness." + t for t in (
         "float_keys_collapse", "roundtripFloatKeys_Full_false", "cr_round_trips", "stray_byte_in_array_ok",
         "inf_is_written_as_number", "same_name_saved", "same_name_variables", "old_mask_loses_the_key",
@@ -357,7 +358,8 @@ class C16(Prop):
         for fn in ("object.c.o", "mapping.c.o"):
             obj = os.path.join(bdir, "lib/lpc/CMakeFiles/lpc.dir", fn)
             if not os.path.exists(obj):
-                continue
+                raise X.TieBroken("site:file-scope-state/object-file-not-found", "no %s in this build: the inventory of "
+                                  "file-scope variables cannot be taken" % obj)
             for l in E.run(["nm", obj]).stdout.splitlines():
                 t = l.split()
                 if len(t) == 3 and t[1] in "BbDdCc" and not t[2].startswith(("__", ".", "_ZL")) and "asan" not in t[2]:
@@ -491,7 +493,9 @@ class C16(Prop):
                     l = "useg %s/%s" % (base, t[1])
                 lines.append(l)
             hc.append(E.Case(c.id, lines))
-        res = E.run_harness(self.exe, self.conf, hc, ctx.rundir)
+        # a case of this property runs for milliseconds (the largest boundary texts for < 1 s under ASan): a per-case limit of
+        # 10 s instead of vh's 30 s keeps a tree that HANGS in many cases from eating the harness wall-clock limit
+        res = E.run_harness(self.exe, self.conf, hc, ctx.rundir, args=("--timeout", "10"))
         for path in made:
             shutil.rmtree(path, ignore_errors=True)
         self.last_impl.update({k: self.canon(v) for k, v in res.items()})
@@ -606,22 +610,22 @@ class C16(Prop):
                 lines += ["setm " + vtxt(("a", [("i", rng.range(1000, 9999))] * n)), "cp %d" % rng.below(2), "cf 1"]
         return lines
 
-    def gen_progs(self, rng, allow_dups):
+    def gen_progs(self, rng, allow_dups, prefix="p"):
         """random inheritance graph: up to 6 programs, depth <= 3 below the top, static / plain / private / public inherits
         at every level, static variables in the middle; with allow_dups also variables of one name at two levels and
         a program inherited twice"""
         k = rng.range(2, 6)
         progs, depth = {}, {}
         for i in range(k):
-            name = "p%d" % i
+            name = "%s%d" % (prefix, i)
             inhs = []
-            cands = [j for j in range(i) if depth["p%d" % j] < 3]
+            cands = [j for j in range(i) if depth["%s%d" % (prefix, j)] < 3]
             if cands and (i == k - 1 or rng.chance(2, 3)):
                 for _ in range(rng.weighted([(1, 5), (2, 3), (3, 1)])):
                     j = rng.choice(cands)
-                    if any(x[1] == "p%d" % j for x in inhs) and not allow_dups:
+                    if any(x[1] == "%s%d" % (prefix, j) for x in inhs) and not allow_dups:
                         continue
-                    inhs.append((rng.weighted([("n", 5), ("s", 4), ("p", 1), ("u", 1)]), "p%d" % j))
+                    inhs.append((rng.weighted([("n", 5), ("s", 4), ("p", 1), ("u", 1)]), "%s%d" % (prefix, j)))
             depth[name] = 1 + max([depth[x[1]] for x in inhs] + [0])
             vars_ = []
             for q in range(rng.weighted([(0, 1), (1, 3), (2, 4), (3, 3), (4, 1)])):
@@ -632,12 +636,12 @@ class C16(Prop):
                     continue
                 vars_.append((rng.weighted([("n", 6), ("s", 3), ("p", 2), ("sp", 1), ("u", 1), ("t", 1)]), vn))
             progs[name] = (inhs, vars_)
-        top = "p%d" % (k - 1)
+        top = "%s%d" % (prefix, k - 1)
         if not allow_dups:
             # a diamond puts the same program (hence the same names) twice into the object: only with allow_dups
             names = [x[0] for x in self.layout(progs, top)]
             if len(set(names)) != len(names):
-                return self.gen_progs(rng, allow_dups)
+                return self.gen_progs(rng, allow_dups, prefix)
         return progs, top
 
     # allocate_mapping(n) gives restore_mapping a table of 8 buckets for n <= 8 pairs, else the next power of two above
@@ -950,6 +954,14 @@ class C16(Prop):
         T3 = {"r0": ([], [("n", "x"), ("n", "y")]), "r1": ([("s", "r0")], [("n", "z")]), "r2": ([("n", "r1")], [("n", "w")]),
               "r3": ([("s", "r2")], [("n", "v")])}
         B.append(E.Case("b-static-chain", self.tree_case_lines(E.Rng(23), T3, "r3", ["so", "ro", "cp"]), {"origin": "boundary"}))
+        # version 1 saved, version 2 restores: `b` moved into an inherited program, `a` now static (nosave), `gone` removed,
+        # `c` new, `s` no longer static, a statically inherited copy of the old base
+        V1 = {"u0": ([], [("n", "a"), ("n", "b")]), "u1": ([("n", "u0")], [("n", "gone"), ("s", "s"), ("p", "priv")])}
+        V2 = {"w0": ([], [("n", "b"), ("p", "priv")]), "w1": ([], [("n", "x")]),
+              "w2": ([("n", "w0"), ("s", "w1")], [("s", "a"), ("n", "c"), ("n", "s")])}
+        mk("another-program-version", self.prog_lines(V1) + self.prog_lines(V2) +
+           ["useg u1", "setm a[i5,s78,i7,i9,s70]", "so 0", "useg w2", "setm a[i1,i2,i3,i4,i6,i8]", "ro 1",
+            "setm a[i1,i2,i3,i4,i6,i8]", "ro 0", "so 1", "useg u1", "setm a[i0,i0,i0,i0,i0]", "ro 0"])
         T4 = {"s0": ([], [("p", "x"), ("n", "k")]), "s1": ([("n", "s0")], [("n", "x"), ("s", "k")])}
         mk("same-name-static-twin", self.prog_lines(T4) + ["useg s1", "setm a[i1,i2,i3,i4]", "so 1", "setm a[i5,i6,i7,i8]", "ro 1"])
         # variable names against `char var[100]`: 98, 99 (fit), 100, 101 (refused) characters; very long lines
@@ -1033,8 +1045,21 @@ class C16(Prop):
 
     def gen_case(self, rng, cid, tier):
         kind = rng.weighted([("rt", 8), ("malformed", 8), ("trunc-all", 1), ("object", 3), ("crash", 1), ("renamed", 2),
-                             ("many", 1), ("names", 1), ("tree", 5), ("mapgrow", 3), ("stale", 3)])
+                             ("many", 1), ("names", 1), ("tree", 5), ("mapgrow", 3), ("stale", 3), ("tree2", 2)])
         lines = ["rm"]
+        if kind == "tree2":
+            # saved by one program tree, restored into ANOTHER one (another version: variables of the same names moved
+            # between inherited programs, made static / non-static, removed, added)
+            pa, ta = self.gen_progs(rng, False, "p")
+            pb, tb = self.gen_progs(rng, False, "q")
+            na, nb = len(self.layout(pa, ta)), len(self.layout(pb, tb))
+            va = vtxt(("a", [self.gen_scalar(rng) if rng.chance(3, 4) else ("i", 0) for _ in range(na)]))
+            vb = vtxt(("a", [self.gen_scalar(rng) for _ in range(nb)]))
+            lines += self.prog_lines(pa) + self.prog_lines(pb) + ["useg " + ta, "setm " + va, "so %d" % rng.below(2),
+                                                                  "useg " + tb, "setm " + vb, "ro %d" % rng.below(2)]
+            if rng.chance(1, 2):
+                lines += ["so %d" % rng.below(2), "useg " + ta, "ro %d" % rng.below(2)]
+            return E.Case(cid, lines, {"origin": "generated", "kind": kind})
         if kind == "stale":
             return E.Case(cid, lines + self.stale_lines(rng), {"origin": "generated", "kind": kind})
         if kind == "mapgrow":
